@@ -855,7 +855,14 @@ def correspondence(ctx):
     for h in range(n_hist):
         rng = random.Random("%s/%d/%d" % (PROP, ctx.seed, h))
         profile = ["links", "dims", "links"][h % 3]
-        ops, outs, tg = run_history(ctx, rng, steps, profile, str(h))
+        try:
+            ops, outs, tg = run_history(ctx, rng, steps, profile, str(h))
+        except core.InfraError:
+            raise
+        except Exception as ex:      # the generator walks the real file: a crash there is the implementation's
+            disagreements.append(Disagreement({"history": h, "generator": "raised %s: %s" % (type(ex).__name__, ex)},
+                                              None, type(ex).__name__))
+            continue
         outs = _canon_dumps(ops, outs)
         model = _canon_dumps(ops, core.run_driver(PROP, [["reset"]] + ops)[1:])
         for k, op, m, i in storegen.compare(ops, outs, model):
@@ -1429,8 +1436,14 @@ def _copy_scenario(ctx, tag):
                 fails.append(Failure("refused %s changed the list/link" % label, log + [[label]], after, before,
                                      "copy-foreign-changed"))
         # the originals are still accepted, and what the list yields is the original, not the copy
-        g.data_arrays.append(b1.data_arrays["x"])
-        g.sources.append(b1.sources["s"].sources["deep"])
+        for label, act in (("group.data_arrays", lambda: g.data_arrays.append(b1.data_arrays["x"])),
+                           ("group.sources", lambda: g.sources.append(b1.sources["s"].sources["deep"]))):
+            try:
+                act()
+            except Exception as ex:
+                fails.append(Failure("an entity of the same block was refused by %s (%s)" % (label, type(ex).__name__),
+                                     log + [["append original", label]], type(ex).__name__, "accepted", "append"))
+                return fails, n
         b1.data_arrays["x"].definition = "original"
         n += 2
         if g.data_arrays[0].definition != "original":
@@ -1445,6 +1458,117 @@ def _copy_scenario(ctx, tag):
             f.close()
         except Exception:
             pass
+        try:
+            os.remove(path)
+        except OSError:
+            pass
+    return fails, n
+
+
+def audit_file(f, log):
+    """model-free audit of a whole file: every link leads to the block's own entity (same HDF5
+    object, same content), every linked dimension reports the selected vector of the current data"""
+    fails = []
+    n = 0
+
+    def same(a, b):
+        return a._h5group.group == b._h5group.group
+
+    for b in f.blocks:
+        own = {c: {e.id: e for e in getattr(b, c)} for c in ("data_arrays", "tags", "multi_tags")}
+        own["sources"] = {s.id: s for s in b.find_sources()}
+
+        def chk(e, store, where):
+            o = own[store].get(e.id)
+            if o is None or not same(o, e):
+                fails.append(Failure("%s of block %s leads to an entity that is not the block's own %s" % (where, b.name,
+                                                                                                          store),
+                                     list(log), [getattr(e, "name", None), e.id], "an entity of block " + b.name,
+                                     "audit-foreign"))
+            elif _content(o) != _content(e):
+                fails.append(Failure("%s of block %s reads differently from the block's own entity" % (where, b.name),
+                                     list(log), _content(e), _content(o), "audit-alias"))
+
+        holders = [(g, "group " + g.name, ("data_arrays", "tags", "multi_tags", "sources")) for g in b.groups]
+        holders += [(t, "tag " + t.name, ("references", "sources")) for t in b.tags]
+        holders += [(t, "multi-tag " + t.name, ("references", "sources")) for t in b.multi_tags]
+        holders += [(a, "array " + a.name, ("sources",)) for a in b.data_arrays]
+        for h, hname, cnames in holders:
+            for c in cnames:
+                for e in getattr(h, c):
+                    n += 1
+                    chk(e, "data_arrays" if c == "references" else c, "%s.%s" % (hname, c))
+        for t in list(b.tags) + list(b.multi_tags):
+            for i, ft in enumerate(t.features):
+                try:
+                    d = ft.data
+                except RuntimeError:
+                    continue
+                n += 1
+                if isinstance(d, nixio.DataArray):
+                    chk(d, "data_arrays", "%s.features[%d].data" % (t.name, i))
+        for t in b.multi_tags:
+            for role in ("positions", "extents"):
+                try:
+                    r = getattr(t, role)
+                except RuntimeError:
+                    r = None
+                if r is not None:
+                    n += 1
+                    chk(r, "data_arrays", "multi-tag %s.%s" % (t.name, role))
+        for a in b.data_arrays:
+            for i, d in enumerate(a.dimensions):
+                dl = d.dimension_link
+                if dl is None or len(dl._h5group) == 0:
+                    continue
+                n += 1
+                if isinstance(d, RangeDimension) and "ticks" in d._h5group:
+                    fails.append(Failure("range dimension %s#%d has explicit ticks and a link" % (a.name, i + 1), list(log),
+                                         "ticks + link", "one of them", "audit-exclusive"))
+                tgt = nixio.DataArray(f, b, dl._linked_group())
+                cur = np.array(tgt[:])
+                sel = tuple(slice(None) if x == -1 else int(x) for x in dl.index)
+                try:
+                    exp = [float(v) for v in cur[sel]]
+                    got = [float(v) for v in (d.ticks if isinstance(d, RangeDimension) else d.labels)]
+                except IndexError:
+                    continue
+                if got != exp:
+                    fails.append(Failure("linked dimension %s#%d does not report the selected vector of the current data"
+                                         % (a.name, i + 1), list(log), got, exp, "audit-dimlink"))
+                if isinstance(d, RangeDimension) and (d.unit != tgt.unit or d.label != tgt.label):
+                    fails.append(Failure("linked range dimension %s#%d does not report the array's unit/label"
+                                         % (a.name, i + 1), list(log), [d.unit, d.label], [tgt.unit, tgt.label],
+                                         "audit-dimlink"))
+    return fails, n
+
+
+def _audit_hint(ctx, hint, tag):
+    """replay the history of a model/implementation disagreement on the implementation and audit the file"""
+    ops = hint.get("prefix") if isinstance(hint, dict) else None
+    if not ops:
+        return [], 0
+    path = ctx.tmpfile("c05-hint-%s.nix" % tag)
+    impl = Impl5(path)
+    fails, n = [], 0
+    try:
+        for k, op in enumerate(ops):
+            if op == ["reopen"] or op == ["noop"]:
+                impl.reopen("a")
+            else:
+                impl.run(op)
+            if op[0] in ("append", "set_role", "create_feature", "dim_link", "dim_set_ticks", "da_write", "set_attr",
+                         "dim_set_attr") or k == len(ops) - 1:
+                with contextlib.redirect_stdout(io.StringIO()):
+                    fs, m = audit_file(impl.f, ops[:k + 1])
+                n += m
+                if fs:
+                    fails += fs
+                    break
+    except Exception:
+        pass
+    finally:
+        impl.close()
         try:
             os.remove(path)
         except OSError:
@@ -1476,6 +1600,9 @@ def _scene_run(ctx, rng, steps, tag):
                 break
         sc.check_all("at the end")
         sc.check_dims()
+        fs, m = audit_file(sc.f, sc.log)
+        sc.fails += fs
+        sc.evals += m
         sc.reopen()
     finally:
         sc.close()
@@ -1487,12 +1614,25 @@ def oracle(ctx, broken, hints):
     steps = ctx.budget(60, 100)
     failures = []
     evals = 0
-    fs, e = _copy_scenario(ctx, "0")
+    try:
+        fs, e = _copy_scenario(ctx, "0")
+    except Exception as ex:      # a scenario that cannot even be built on this tree is reported, not an infra error
+        fs, e = [Failure("the id-keeping-copy scenario raised %s: %s" % (type(ex).__name__, ex),
+                         [["copy scenario"]], type(ex).__name__, "no exception", "oracle-step")], 0
     failures += fs
     evals += e
+    for hi, hint in enumerate(hints[:6]):          # the disagreeing histories first
+        fs, e = _audit_hint(ctx, hint, str(hi))
+        failures += fs
+        evals += e
     for k in range(n):
         rng = random.Random("C05-oracle/%d/%d" % (ctx.seed, k))
-        fs, e = _scene_run(ctx, rng, steps, str(k))
+        try:
+            fs, e = _scene_run(ctx, rng, steps, str(k))
+        except Exception as ex:
+            fs, e = [Failure("building the scene (blocks with equal names, arrays, group, tag, multi-tag, sources) raised "
+                             "%s: %s" % (type(ex).__name__, ex), [["scene setup", k]], type(ex).__name__, "no exception",
+                             "oracle-step")], 0
         failures += fs
         evals += e
         if len(failures) > 12:
